@@ -266,6 +266,12 @@ class LoopTranslator:
                 if f.attr == "log" and isinstance(e.args[0], ast.Constant) and e.args[0].value == 2:
                     self.extra_params["ln2"] = "FVal"
                     return "ln2", "F"
+            if isinstance(f, ast.Name) and f.id == "abs" and len(e.args) == 1 and not e.keywords:
+                a, at = self.expr(cx, e.args[0])
+                if at == "Val":
+                    return f"(Val.abs {a})", "Val"
+                if at == "Int":
+                    return f"((Int.natAbs {a} : Nat) : Int)", "Int"
             if isinstance(f, ast.Name) and f.id == "_min" and len(e.args) == 2:
                 a, at = self.expr(cx, e.args[0])
                 b, bt = self.expr(cx, e.args[1])
@@ -1246,6 +1252,8 @@ LOOPS = {
     "first_non_null_int": ("util", "jit_get_first_non_null/f#0", {"arr": "A(Val)"}, "Val", ["Int", "Val"]),
     "nb_reduce": ("nanops", "_nb_reduce", {"reduce_func": "Red2", "arr": "A(Val)", "skipna": "Bool", "initial_value": "OptVal"}, "Val",
                   ["Val"]),
+    "group_nearby_members": ("numba", "group_nearby_members",
+                             {"group_key": "A(Int)", "values": "A(Val)", "max_diff": "Val", "n_groups": "Int"}),
     "build_group_sorted_indexer": ("core", "_build_group_sorted_indexer_numba",
                                    {"group_key_list": "LL(Int)", "group_counts": "A(Int)", "key_map": "OptA(Int)",
                                     "mask": "OptA(Bool)"}),
